@@ -872,12 +872,15 @@ func main() {
 		}(i)
 	}
 	wg.Wait()
+	retries := 0
 	for i := range plan {
 		o := results[i]
 		pl := plan[i]
 		unexpectedHang := o.hung && !(pl.pred.asIsCycle && !fixedTree)
-		if unexpectedHang {
-			// a second, isolated attempt before an unexpected hang counts
+		if unexpectedHang && retries < 4 {
+			// a second, isolated attempt before an unexpected hang counts (the first few: when many calls hang,
+			// load is not the explanation)
+			retries++
 			o = runJob(pl.j, 100000+i)
 			rep.Count("retry-after-hang")
 		}
